@@ -127,8 +127,10 @@ def check(src, rep):
         if not (isinstance(vexpr, ast.BinOp) and isinstance(vexpr.op, ast.Mult) and {txt.split(" * ")[0], txt.split(" * ")[-1]} == {"this.unscaled_value", "this.scaler_unit.scaler.scale"}):
             rep.violation("R2", "aidon.Element", "value-expression", "the scaled value is not unscaled_value x scaler.scale", file, val.line or 1, witness=txt[:80])
     # ---------------------------------------------------------------- R3/R4/R5: normaliser
-    fn = M.funcs.get("aidon._normalize_parsed_items")
-    rep.require(fn is not None, "anchor vanished: aidon._normalize_parsed_items")
+    from sa.decoders import normaliser_workers
+    ws = normaliser_workers(M, MOD)
+    rep.require(len(ws) == 1, f"cannot find the one list-items normaliser reached from the public normalize_* functions (found {[w.name for w in ws]})")
+    fn = ws[0]
     E = Engine(M)
     node, ps = loop_body_paths(E, fn)
     item = ("iter", ("p", fn.params[0]), node.lineno)
@@ -139,14 +141,14 @@ def check(src, rep):
         st = setitems(p)
         if len(st) != 1:
             bad += 1
-            rep.violation("R4", "aidon._normalize_parsed_items", "stores-per-element", f"an element produces {len(st)} dictionary entries instead of one", file, node.lineno)
+            rep.violation("R4", f"aidon.{fn.name}", "stores-per-element", f"an element produces {len(st)} dictionary entries instead of one", file, node.lineno)
             continue
         key, value, line = st[0]
         n_store += 1
         nv = naming_verdict(key, p.guards, item)
         if nv:
             bad += 1
-            rep.violation("R4", "aidon._normalize_parsed_items", "naming", nv, file, line)
+            rep.violation("R4", f"aidon.{fn.name}", "naming", nv, file, line)
         lits = {}
         for g, pol, _ in p.guards:
             g = strip_epoch(g)
@@ -157,11 +159,11 @@ def check(src, rep):
         if lits.get("str"):
             if value != content_sv:
                 bad += 1
-                rep.violation("R5", "aidon._normalize_parsed_items", "text-not-verbatim", "a text element is transformed before it is stored", file, line, witness=show_sv(value)[:80])
+                rep.violation("R5", f"aidon.{fn.name}", "text-not-verbatim", "a text element is transformed before it is stored", file, line, witness=show_sv(value)[:80])
         elif lits.get("dt"):
             if value != ("f0", content_sv, "datetime"):
                 bad += 1
-                rep.violation("R5", "aidon._normalize_parsed_items", "clock-not-datetime", "the clock element does not store the decoded datetime", file, line, witness=show_sv(value)[:80])
+                rep.violation("R5", f"aidon.{fn.name}", "clock-not-datetime", "the clock element does not store the decoded datetime", file, line, witness=show_sv(value)[:80])
         elif lits.get("str") is False and lits.get("dt") is False:
             U, V = ("f0", content_sv, "unscaled_value"), ("f0", content_sv, "value")
             want = ("ite", ("cmp", "Eq", U, V), U, ("call", "float", (V,)))
@@ -171,7 +173,7 @@ def check(src, rep):
                 norm = ("ite", norm[1], norm[2], ("call", "float", norm[3][2]))
             if norm not in (want, alt):
                 bad += 1
-                rep.violation("R3", "aidon._normalize_parsed_items", "int-or-float", "the stored number is not `unscaled integer if it equals the scaled value else float(scaled value)` "
+                rep.violation("R3", f"aidon.{fn.name}", "int-or-float", "the stored number is not `unscaled integer if it equals the scaled value else float(scaled value)` "
                               "(e.g. extra rounding changes the correctly rounded float)", file, line, witness=show_sv(value)[:140])
         else:
             rep.undecide(f"R3 an element path is not classified by isinstance(content, str) / hasattr(content, 'datetime'): {[show_sv(g)[:40] for g, _, _ in p.guards]}")
@@ -198,15 +200,15 @@ def check(src, rep):
     if okm:
         rep.ok("R5", "manufacturer", "meter_manufacturer = 'Aidon'")
     else:
-        rep.violation("R5", "aidon._normalize_parsed_items", "manufacturer", "the manufacturer field is not the constant 'Aidon'", file, fn.node.lineno)
+        rep.violation("R5", f"aidon.{fn.name}", "manufacturer", "the manufacturer field is not the constant 'Aidon'", file, fn.node.lineno)
     # ---------------------------------------------------------------- R6
     rs = list(routes(frame, body))
     tg = parse_targets(M, MOD)
     ok6 = len(rs) == 1 and tg.get("decode_frame_content") == "LlcPdu" and tg.get("decode_notification_body") == "NotificationBody"
     fr_fn, bo_fn = M.funcs.get("aidon.normalize_parsed_frame"), M.funcs.get("aidon.normalize_parsed_notification")
     rep.require(fr_fn is not None and bo_fn is not None, "anchor vanished: aidon normalisers")
-    a1 = [ast.unparse(n.args[0]) for n in ast.walk(fr_fn.node) if isinstance(n, ast.Call) and ast.unparse(n.func) == "_normalize_parsed_items"]
-    a2 = [ast.unparse(n.args[0]) for n in ast.walk(bo_fn.node) if isinstance(n, ast.Call) and ast.unparse(n.func) == "_normalize_parsed_items"]
+    a1 = [ast.unparse(n.args[0]) for n in ast.walk(fr_fn.node) if isinstance(n, ast.Call) and ast.unparse(n.func) == fn.name]
+    a2 = [ast.unparse(n.args[0]) for n in ast.walk(bo_fn.node) if isinstance(n, ast.Call) and ast.unparse(n.func) == fn.name]
     p1, p2 = (fr_fn.params[0] if fr_fn.params else ""), (bo_fn.params[0] if bo_fn.params else "")
     ok6 = ok6 and a1 == [f"{p1}.information.notification_body.list_items"] and a2 == [f"{p2}.list_items"]
     if ok6:
